@@ -604,6 +604,24 @@ func (c *Ctx) c01Length() {
 				L.Bad("length-after-row-change", name, cons, c.P.Pos(st.Pos()), "a row buffer is replaced or re-sliced and a normal return is reachable without updating the cached length: Length() and the rows disagree")
 			}
 		}
+		// the row list emptied through the embedded container (seqbag.Clear on the receiver's own
+		// rows): the cached length describes rows that are gone
+		for _, g := range withAnons(fn) {
+			allInstrs(g, func(in ssa.Instruction) {
+				if !isCallToMethod(in, "seqbag", "Clear") {
+					return
+				}
+				n++
+				if g != fn {
+					L.Unknown("length-after-row-change", name, "row list emptied in a closure", c.P.Pos(in.Pos()), "cannot order the closure's call with the length update")
+					return
+				}
+				ok, _ := mustFollow(fn, func(x ssa.Instruction) bool { return x == in }, isLenStore)
+				L.Check(ok, "length-after-row-change", name, "row list emptied through the embedded container", c.P.Pos(in.Pos()),
+					"every path from the call to a normal return stores align.length",
+					"the rows are dropped through the embedded container and a normal return is reachable without resetting the cached length: an alignment left without rows still reports the old length and rejects rows of any other length")
+			})
+		}
 		for _, hc := range helperCalls {
 			n++
 			top := hc
